@@ -39,6 +39,15 @@ Proof. intros (a & b & ->) H. apply in_or_app. right. apply in_or_app. left. exa
 Lemma suffix_len (r s : text) : suffix r s -> (length r <= length s)%nat.
 Proof. intros [a ->]. rewrite app_length. lia. Qed.
 
+Lemma NoDup_snoc {A} (l : list A) x : NoDup l -> ~ In x l -> NoDup (l ++ [x]).
+Proof.
+  induction l as [|y l IH]; intros Hn Hx; cbn [app]; [repeat constructor; intros []|].
+  inversion Hn as [|? ? Hy Hl]. subst. constructor.
+  - intros Hi. apply in_app_or in Hi. destruct Hi as [Hi|[Hi|[]]]; [exact (Hy Hi)|].
+    subst. apply Hx. left. reflexivity.
+  - apply IH; [exact Hl|]. intros Hi. apply Hx. right. exact Hi.
+Qed.
+
 (* ------------------------------------------------------------ clean texts *)
 
 Lemma norun4_mono s : forall k1 k2, (k1 <= k2)%nat -> norun4 k2 s = true -> norun4 k1 s = true.
@@ -444,8 +453,232 @@ Section Sound.
     { apply Forall_app. split; [exact Hacc|]. constructor; [|constructor].
       exact (gnetwork_intro id opts net Hg Hid Hty Ho Hips Hne). }
     assert (Hnd' : NoDup (map fst (acc ++ [(id, net)]))).
-    { rewrite map_app. cbn [map fst]. apply NoDup_app_intro; [exact Hnd|repeat constructor; intros []|].
-      intros x Hx [<-|[]]. apply has_id_in in Hx. congruence. }
+    { rewrite map_app. cbn [map fst]. apply NoDup_snoc; [exact Hnd|].
+      intros Hx. apply has_id_in in Hx. congruence. }
     destruct (IH _ _ _ _ _ _ Hr2 Hacc' Hnd' H) as (Ha & Hb & Hc & Hd). repeat split; auto. lia.
   Qed.
 End Sound.
+
+Definition gmachine (m : machine) : Prop := pmachine m /\ cmachine m.
+
+Definition three (d : dectype) : Prop := d = Networks \/ d = Protocols \/ d = Applications.
+
+Lemma req_remove_sub d req req' : req_remove d req = Some req' ->
+  forall x, req_contains x req' = true -> req_contains x req = true.
+Proof.
+  revert req'. induction req as [|y r IH]; intros req' H x Hx; cbn [req_remove] in H; [discriminate|].
+  cbn [req_contains]. destruct (dectype_eqb y d).
+  - injection H as <-. rewrite Hx. apply orb_true_r.
+  - destruct (req_remove d r) as [r'|] eqn:E; [|discriminate]. injection H as <-.
+    cbn [req_contains] in Hx. apply orb_prop in Hx. destruct Hx as [Hx|Hx].
+    + rewrite Hx. reflexivity.
+    + rewrite (IH _ eq_refl x Hx). apply orb_true_r.
+Qed.
+
+Lemma req_contains_in d req : req_contains d req = true -> In d req.
+Proof.
+  induction req as [|y r IH]; cbn [req_contains]; [discriminate|]. intros H.
+  apply orb_prop in H. destruct H as [H|H]; [left; exact (dectype_eqb_eq _ _ H)|right; exact (IH H)].
+Qed.
+
+Lemma req_remove_forall (P : dectype -> Prop) d req req' :
+  req_remove d req = Some req' -> Forall P req -> Forall P req'.
+Proof.
+  revert req'. induction req as [|y r IH]; intros req' H Hall; cbn [req_remove] in H; [discriminate|].
+  inversion Hall as [|? ? Hy Hr]. subst. destruct (dectype_eqb y d).
+  - injection H as <-. exact Hr.
+  - destruct (req_remove d r) as [r'|] eqn:E; [|discriminate]. injection H as <-.
+    constructor; [exact Hy|exact (IH _ eq_refl Hr)].
+Qed.
+
+Lemma req_remove_other d req req' x : req_remove d req = Some req' -> x <> d ->
+  req_contains x req' = false -> req_contains x req = false.
+Proof.
+  revert req'. induction req as [|y r IH]; intros req' H Hx Hc; cbn [req_remove] in H; [discriminate|].
+  cbn [req_contains]. destruct (dectype_eqb y d) eqn:E.
+  - injection H as <-. apply dectype_eqb_eq in E. subst y. rewrite Hc.
+    rewrite dectype_eqb_neq by (intros Hq; apply Hx; symmetry; exact Hq). reflexivity.
+  - destruct (req_remove d r) as [r'|] eqn:E2; [|discriminate]. injection H as <-.
+    cbn [req_contains] in Hc. apply orb_false_elim in Hc. destruct Hc as [H1 H2].
+    rewrite H1. cbn [orb]. exact (IH _ eq_refl Hx H2).
+Qed.
+
+Section Sound2.
+  Variable T : text.
+  Variable T_clean : clean T.
+
+  (* the lists of the sections already seen are non-empty and hold items of the right kind *)
+  Definition minv (req : list dectype) (nets protos apps : list item) : Prop :=
+    Forall three req /\
+    Forall (gitem Network) nets /\ Forall (gitem Protocol) protos /\ Forall (gitem Application) apps /\
+    (req_contains Networks req = false -> nets <> []) /\
+    (req_contains Protocols req = false -> protos <> []) /\
+    (req_contains Applications req = false -> apps <> []).
+
+  Lemma app_nonnil {A} (a b : list A) : b <> [] -> a ++ b <> [].
+  Proof. destruct a; [auto|discriminate]. Qed.
+
+  Lemma machine_loop_sound fuel nt l0 : forall req nets protos apps s ln req' n' p' a' rem ln',
+    suffix s T -> minv req nets protos apps ->
+    machine_loop get_type fuel nt l0 req nets protos apps s ln = Ok (req', n', p', a', rem, ln') ->
+    suffix rem T /\ (length rem <= length s)%nat /\ minv req' n' p' a'.
+  Proof.
+    induction fuel as [|f IH]; intros req nets protos apps s ln req' n' p' a' rem ln' Hs Hinv H;
+      cbn [machine_loop] in H; [discriminate|].
+    destruct (is_nil s); [injection H as <- <- <- <- <- <-; repeat split; auto; apply Hinv|].
+    destruct (Nat.ltb (count_leading c_tab s) nt); [injection H as <- <- <- <- <- <-; repeat split; auto; apply Hinv|].
+    destruct (Nat.ltb nt (count_leading c_tab s)); [discriminate|].
+    destruct (str_from nt s) as [s1| | |] eqn:E1; try discriminate.
+    destruct (suffix_str_from T _ _ _ Hs E1) as [Hs1 Hl1].
+    destruct (general_parser get_type s1 ln) as [[[[ty opts] rem1] ln1]| | |] eqn:G; try discriminate.
+    destruct (general_parser_sound T T_clean _ _ _ _ _ _ Hs1 G) as (Hr1 & Hlen & Hg).
+    destruct (req_contains ty req) eqn:Ec; [|discriminate].
+    destruct (req_remove ty req) as [req1|] eqn:Er; [|discriminate].
+    destruct (items_parser get_type (item_type_of ty) rem1 (S nt) ln1) as [[[its rem2] ln2]| | |] eqn:P;
+      try discriminate.
+    destruct (items_parser_sound T T_clean _ _ _ _ _ _ _ Hr1 P) as (Hr2 & Hl2 & Hits & Hne).
+    destruct Hinv as (H3 & Hn & Hp & Ha & Nn & Np & Na).
+    assert (Hty : three ty).
+    { apply req_contains_in in Ec. rewrite Forall_forall in H3. exact (H3 _ Ec). }
+    assert (H3' : Forall three req1) by exact (req_remove_forall _ _ _ _ Er H3).
+    assert (K : forall a b c, minv req1 a b c ->
+              machine_loop get_type f nt l0 req1 a b c rem2 ln2 = Ok (req', n', p', a', rem, ln') ->
+              suffix rem T /\ (length rem <= length s)%nat /\ minv req' n' p' a').
+    { intros a b c Hi Hm. destruct (IH _ _ _ _ _ _ _ _ _ _ _ _ Hr2 Hi Hm) as (X & Y & Z).
+      split; [exact X|]. split; [lia|exact Z]. }
+    destruct Hty as [->|[->| ->]]; cbn [item_type_of] in Hits.
+    - apply (K (nets ++ its) protos apps); [|exact H]. repeat split; auto.
+      + apply Forall_app. split; assumption.
+      + intros _. apply app_nonnil. exact Hne.
+      + intros Hc. apply Np. exact (req_remove_other _ _ _ Protocols Er ltac:(discriminate) Hc).
+      + intros Hc. apply Na. exact (req_remove_other _ _ _ Applications Er ltac:(discriminate) Hc).
+    - apply (K nets (protos ++ its) apps); [|exact H]. repeat split; auto.
+      + apply Forall_app. split; assumption.
+      + intros Hc. apply Nn. exact (req_remove_other _ _ _ Networks Er ltac:(discriminate) Hc).
+      + intros _. apply app_nonnil. exact Hne.
+      + intros Hc. apply Na. exact (req_remove_other _ _ _ Applications Er ltac:(discriminate) Hc).
+    - apply (K nets protos (apps ++ its)); [|exact H]. repeat split; auto.
+      + apply Forall_app. split; assumption.
+      + intros Hc. apply Nn. exact (req_remove_other _ _ _ Networks Er ltac:(discriminate) Hc).
+      + intros Hc. apply Np. exact (req_remove_other _ _ _ Protocols Er ltac:(discriminate) Hc).
+      + intros _. apply app_nonnil. exact Hne.
+  Qed.
+End Sound2.
+
+Section Sound3.
+  Variable T : text.
+  Variable T_clean : clean T.
+
+  Lemma machine_parser_sound opts s nt ln m rem ln' : suffix s T -> good_args opts ->
+    machine_parser get_type opts s nt ln = Ok (m, rem, ln') ->
+    suffix rem T /\ (length rem <= length s)%nat /\ gmachine m.
+  Proof.
+    intros Hs [Hp Hc] H. unfold machine_parser in H.
+    destruct (machine_loop get_type (S (length s)) nt (ln - 1) [Networks; Protocols; Applications] [] [] [] s ln)
+      as [[[[[[req n] p] a] rem0] ln0]| | |] eqn:L; try discriminate.
+    destruct (negb (is_nil req)) eqn:E; [discriminate|]. injection H as <- <- <-.
+    destruct req; [|discriminate].
+    assert (Hi : minv [Networks; Protocols; Applications] [] [] []).
+    { unfold minv. repeat split; try constructor; try discriminate.
+      - left. reflexivity.
+      - constructor; [right; left; reflexivity|]. constructor; [right; right; reflexivity|constructor]. }
+    destruct (machine_loop_sound T T_clean _ _ _ _ _ _ _ _ _ _ _ _ _ _ _ Hs Hi L)
+      as (Hr & Hl & (_ & Hn & Hpp & Ha & Nn & Np & Na)).
+    split; [exact Hr|]. split; [exact Hl|]. split.
+    - unfold pmachine. cbn [m_ty m_opts m_nets m_protos m_apps].
+      split; [reflexivity|]. split; [exact Hp|].
+      split; [apply Nn; reflexivity|]. split; [eapply Forall_impl; [|exact Hn]; intros i; apply gitem_p|].
+      split; [apply Np; reflexivity|]. split; [eapply Forall_impl; [|exact Hpp]; intros i; apply gitem_p|].
+      split; [apply Na; reflexivity|]. eapply Forall_impl; [|exact Ha]. intros i. apply gitem_p.
+    - unfold cmachine. cbn [m_opts m_nets m_protos m_apps].
+      split; [split; [exact Hc|exact (proj1 Hp)]|].
+      split; [eapply Forall_impl; [|exact Hn]; intros i; apply gitem_c|].
+      split; [eapply Forall_impl; [|exact Hpp]; intros i; apply gitem_c|].
+      eapply Forall_impl; [|exact Ha]. intros i. apply gitem_c.
+  Qed.
+
+  Lemma machines_loop_sound fuel nt l0 : forall acc s ln l rem ln',
+    suffix s T -> Forall gmachine acc ->
+    machines_loop get_type fuel nt l0 acc s ln = Ok (l, rem, ln') ->
+    suffix rem T /\ (length rem <= length s)%nat /\ Forall gmachine l.
+  Proof.
+    induction fuel as [|f IH]; intros acc s ln l rem ln' Hs Hacc H; cbn [machines_loop] in H; [discriminate|].
+    destruct (is_nil s); [injection H as <- <- <-; repeat split; auto|].
+    destruct (Nat.ltb (count_leading c_tab s) nt); [injection H as <- <- <-; repeat split; auto|].
+    destruct (Nat.ltb nt (count_leading c_tab s)); [discriminate|].
+    destruct (str_from nt s) as [s1| | |] eqn:E1; try discriminate.
+    destruct (suffix_str_from T _ _ _ Hs E1) as [Hs1 Hl1].
+    destruct (general_parser get_type s1 ln) as [[[[ty opts] rem1] ln1]| | |] eqn:G; try discriminate.
+    destruct (general_parser_sound T T_clean _ _ _ _ _ _ Hs1 G) as (Hr1 & Hlen & Hg).
+    destruct (dectype_eqb ty Machine); [|discriminate].
+    destruct (machine_parser get_type opts rem1 (S nt) ln1) as [[[m rem2] ln2]| | |] eqn:P; try discriminate.
+    destruct (machine_parser_sound _ _ _ _ _ _ _ Hr1 Hg P) as (Hr2 & Hl2 & Hm).
+    assert (Hacc' : Forall gmachine (acc ++ [m])).
+    { apply Forall_app. split; [exact Hacc|]. constructor; [exact Hm|constructor]. }
+    destruct (IH _ _ _ _ _ _ Hr2 Hacc' H) as (Ha & Hb & Hc). split; [exact Ha|]. split; [lia|exact Hc].
+  Qed.
+
+  Lemma merge_networks_sound new : forall acc res, merge_networks acc new = Some res ->
+    Forall gnetwork acc -> NoDup (map fst acc) -> Forall gnetwork new ->
+    Forall gnetwork res /\ NoDup (map fst res).
+  Proof.
+    induction new as [|[id n] new IH]; intros acc res H Hacc Hnd Hnew; cbn [merge_networks] in H.
+    - injection H as <-. split; assumption.
+    - destruct (has_id id acc) eqn:E; [discriminate|]. inversion Hnew as [|? ? Hx Hr]. subst.
+      apply (IH _ _ H).
+      + apply Forall_app. split; [exact Hacc|]. constructor; [exact Hx|constructor].
+      + rewrite map_app. cbn [map fst]. apply NoDup_snoc; [exact Hnd|].
+        intros Hi. apply has_id_in in Hi. congruence.
+      + exact Hr.
+  Qed.
+
+  Lemma core_loop_sound fuel : forall nets ms s ln r,
+    suffix s T -> Forall gnetwork nets -> NoDup (map fst nets) -> Forall gmachine ms ->
+    core_loop get_type fuel nets ms s ln = Ok r ->
+    Forall gnetwork (s_networks r) /\ NoDup (map fst (s_networks r)) /\ Forall gmachine (s_machines r).
+  Proof.
+    induction fuel as [|f IH]; intros nets ms s ln r Hs Hn Hnd Hm H; cbn [core_loop] in H; [discriminate|].
+    destruct (is_nil s); [injection H as <-; cbn [s_networks s_machines]; repeat split; assumption|].
+    destruct (general_parser get_type s ln) as [[[[ty opts] rem1] ln1]| | |] eqn:G; try discriminate.
+    destruct (general_parser_sound T T_clean _ _ _ _ _ _ Hs G) as (Hr1 & Hlen & Hg).
+    destruct ty; try discriminate.
+    - exact (IH _ _ _ _ _ Hr1 Hn Hnd Hm H).
+    - destruct (networks_parser get_type rem1 1 ln1) as [[[new rem2] ln2]| | |] eqn:P; try discriminate.
+      unfold networks_parser in P.
+      destruct (networks_loop_sound T T_clean _ _ _ _ _ _ _ _ _ Hr1 (Forall_nil _) (NoDup_nil _) P)
+        as (Hr2 & Hl2 & Hnew & Hndn).
+      destruct (merge_networks nets new) as [nets'|] eqn:M; [|discriminate].
+      destruct (merge_networks_sound _ _ _ M Hn Hnd Hnew) as [Hn' Hnd'].
+      exact (IH _ _ _ _ _ Hr2 Hn' Hnd' Hm H).
+    - destruct (machines_parser get_type rem1 1 ln1) as [[[new rem2] ln2]| | |] eqn:P; try discriminate.
+      unfold machines_parser in P.
+      destruct (machines_loop_sound _ _ _ _ _ _ _ _ _ Hr1 (Forall_nil _) P) as (Hr2 & Hl2 & Hnew).
+      apply (IH nets (ms ++ new) rem2 ln2 r Hr2 Hn Hnd); [apply Forall_app; split; assumption|exact H].
+  Qed.
+End Sound3.
+
+(* every accepted text yields a well-formed description *)
+Lemma core_parse_sound txt s : core_parse txt = Ok s -> wf_sim s.
+Proof.
+  unfold core_parse, core_parse_gen. intros H.
+  destruct (core_loop_sound (rewrite txt) (rewrite_clean txt) _ _ _ _ _ _ (suffix_refl _)
+              (Forall_nil _) (NoDup_nil _) (Forall_nil _) H) as (Hn & Hnd & Hm).
+  split.
+  - split; [|split].
+    + eapply Forall_impl; [|exact Hn]. intros kn [Hp _]. exact Hp.
+    + exact Hnd.
+    + eapply Forall_impl; [|exact Hm]. intros m [Hp _]. exact Hp.
+  - split.
+    + eapply Forall_impl; [|exact Hn]. intros kn [_ Hc]. exact Hc.
+    + eapply Forall_impl; [|exact Hm]. intros m [_ Hc]. exact Hc.
+Qed.
+
+(* parsing is idempotent through rendering, in all renderings of the quantifier *)
+Lemma core_parse_idempotent txt s : core_parse txt = Ok s ->
+  core_parse (render s) = Ok s /\ core_parse (render4 s) = Ok s /\
+  core_parse (crlf (render s)) = Ok s /\ core_parse (crlf (render4 s)) = Ok s.
+Proof.
+  intros H. apply core_parse_sound in H.
+  repeat split; try rewrite core_parse_crlf;
+    first [exact (core_parse_render s H)|exact (core_parse_render4 s H)].
+Qed.
